@@ -13,13 +13,27 @@
 //	leanTypeM    -> k11b2Type         `intSet` (map[int]struct{}) is the `List Int` of the keys added, in order of insertion
 //	lexpr        -> fc.k11b2Lexpr     TEXT ACCUMULATION as byte lists (value semantics: the callers of these decoders always
 //	                                  continue with the returned slice): `append(x, v)` = `x ++ [v]`, `append(x, ys...)` = `x ++ ys`,
-//	                                  `[]byte("constant")`, `[]byte(strconv.Itoa(v))` = `Gzx.GoM.itoa v` (SPECIFIED function)
+//	                                  `[]byte("constant")`, `[]byte(strconv.Itoa(v))` = `Gzx.GoM.itoa v` (SPECIFIED function),
+//	                                  `string(rune(c))` of a byte c = `Gzx.GoM.utf8Byte c` (SPECIFIED: the UTF-8 encoding of U+00cc),
+//	                                  `[]byte{}`, `b[lo:hi]` of a []byte within its LENGTH (`Gzx.GoM.slice`: a high bound between len
+//	                                  and cap, legal in Go, is reported as a panic — no kernel theorem may need that case)
 //	usedNames    -> fc.k11b2Used      a `return` inside a loop body yields the written receiver fields / slice parameters too: they
 //	                                  are free variables of the body definition
-//	mblock       -> fc.k11b2Stmt      `s.add(n)` of an intSet: `s := s ++ [n]` (assignedIn3 -> k11b2AssignedByCall: the set is written,
+//	mblock       -> fc.k11b2Stmt      `var e error` (no error: false);
+//	                                  `s.add(n)` of an intSet: `s := s ++ [n]` (assignedIn3 -> k11b2AssignedByCall: the set is written,
 //	                                  so a set parameter is returned after the results like a written slice parameter)
 //	genFuncM     -> fc.k11b2Prepare   AST pre-pass: locals that SHADOW an outer local of the same function are renamed (`b` in
 //	                                  decodeBase256Segment), the translation has one flat name space per function
+//	genFuncM     -> fc.k11b2View      THE MODE LOOP `DecodedBitStreamParser_decode` is translated as a VIEW of the Go function (module K02e
+//	                                  only): the local `bits := common.NewBitSource(bytes)` becomes the leading parameter
+//	                                  `bits *common.BitSource` (the caller of the kernel supplies `{bytes, 0, 0}`, which is what
+//	                                  NewBitSource builds), and the results are the three values the function hands to
+//	                                  `common.NewDecoderResultWithSymbologyModifier` — `result`, `byteSegments`, `symbologyModifier` — plus
+//	                                  the error (`return nil, e` = zero values and e).  Everything between is translated as it stands.
+//	mexpr        -> fc.k11b2Mexpr     `s.contains(n)` of an intSet = `Gzx.GoM.setContains s n`; `len(xs)` of a [][]byte
+//	lexpr        -> (k11b2Lexpr)      `make([]T, n, c)` with a capacity the function never observes = `Gzx.GoM.mk3n n c`
+//	massign      -> (k11b2Assign)     `xs := make([][]T, 0, c)` = no byte lists; `xs = nil` of a list of byte lists
+//	return       -> fc.k11b2Return    `nil` for a result of type [][]byte
 //
 // Run-time library: lean/Gzx/GoMK11b2.lean.
 package main
@@ -88,6 +102,24 @@ func (fc *fnCtx) k11b2Stmt(s ast.Stmt, rest []ast.Stmt, lvl int) (string, bool, 
 				}
 				r, err := fc.mblock(append(seq, rest...), lvl)
 				return r, true, err
+			}
+		}
+	}
+	// var e error
+	if ds, ok := s.(*ast.DeclStmt); ok {
+		if gd, ok := ds.Decl.(*ast.GenDecl); ok && gd.Tok == token.VAR && len(gd.Specs) == 1 {
+			if vs, ok := gd.Specs[0].(*ast.ValueSpec); ok && len(vs.Values) == 0 && vs.Type != nil && len(vs.Names) == 1 {
+				if t := fc.p.TypesInfo.TypeOf(vs.Type); t != nil && (t.String() == "error" || isErrorType(t)) {
+					var sb strings.Builder
+					sb.WriteString(fc.flush(lvl))
+					fc.declare(vs.Names[0].Name, "Bool")
+					fmt.Fprintf(&sb, "%slet %s := false\n", ind(lvl), fc.name(vs.Names[0].Name))
+					r, err := fc.mblock(rest, lvl)
+					if err != nil {
+						return "", true, err
+					}
+					return sb.String() + r, true, nil
+				}
 			}
 		}
 	}
@@ -288,6 +320,39 @@ func (fc *fnCtx) k11b2Assign(x *ast.AssignStmt, rest []ast.Stmt, lvl int) (strin
 			}
 		}
 	}
+	// xs := make([][]T, 0, c) / xs = nil of a list of byte lists
+	if len(x.Lhs) == 1 && len(x.Rhs) == 1 && (x.Tok == token.ASSIGN || x.Tok == token.DEFINE) {
+		if lid, ok := x.Lhs[0].(*ast.Ident); ok && lid.Name != "_" {
+			if lt, err := fc.k11b2LhsType(lid); err == nil && lt == "List (List Int)" {
+				val := ""
+				if rid, ok := x.Rhs[0].(*ast.Ident); ok && rid.Name == "nil" {
+					val = "[]"
+				}
+				if call, ok := x.Rhs[0].(*ast.CallExpr); ok {
+					if fid, ok := call.Fun.(*ast.Ident); ok && fid.Name == "make" && len(call.Args) >= 2 {
+						if tv, ok := fc.p.TypesInfo.Types[call.Args[1]]; ok && tv.Value != nil && constant.Sign(tv.Value) == 0 {
+							capOK := len(call.Args) == 2
+							if len(call.Args) == 3 {
+								if cv, ok := fc.p.TypesInfo.Types[call.Args[2]]; ok && cv.Value != nil && constant.Sign(cv.Value) >= 0 {
+									capOK = true
+								}
+							}
+							if capOK {
+								val = "[]"
+							}
+						}
+					}
+				}
+				if val != "" {
+					var sb strings.Builder
+					sb.WriteString(fc.flush(lvl))
+					fc.declare(lid.Name, lt)
+					fmt.Fprintf(&sb, "%slet %s : List (List Int) := %s\n", ind(lvl), fc.name(lid.Name), val)
+					return cont(sb.String())
+				}
+			}
+		}
+	}
 	// xs = append(xs, ys) on a list of byte lists
 	if len(x.Lhs) == 1 && len(x.Rhs) == 1 && x.Tok == token.ASSIGN {
 		if call, ok := x.Rhs[0].(*ast.CallExpr); ok {
@@ -406,9 +471,57 @@ func (fc *fnCtx) k11b2Lexpr(ex ast.Expr) (string, bool, error) {
 	if !k11b2On() || fc.m == nil {
 		return "", false, nil
 	}
+	if cl, ok := ex.(*ast.CompositeLit); ok && len(cl.Elts) == 0 {
+		if lt, err := leanTypeM(fc.p.TypesInfo.TypeOf(cl)); err == nil && lt == "List Int" {
+			return "[]", true, nil
+		}
+		return "", false, nil
+	}
+	if se, ok := ex.(*ast.SliceExpr); ok && !se.Slice3 {
+		t := fc.p.TypesInfo.TypeOf(se.X)
+		if _, isSlice := t.Underlying().(*types.Slice); !isSlice {
+			return "", false, nil
+		}
+		if lt, err := leanTypeM(t); err != nil || lt != "List Int" {
+			return "", false, nil
+		}
+		base, err := fc.lexpr(se.X)
+		if err != nil {
+			return "", true, err
+		}
+		lo, hi := "0", "(Gzx.GoM.len "+base+")"
+		if se.Low != nil {
+			if lo, err = fc.expr(se.Low); err != nil {
+				return "", true, err
+			}
+		}
+		if se.High != nil {
+			if hi, err = fc.expr(se.High); err != nil {
+				return "", true, err
+			}
+		}
+		return fc.bind(fmt.Sprintf("Gzx.GoM.slice %s %s %s", base, lo, hi)), true, nil
+	}
 	call, ok := ex.(*ast.CallExpr)
 	if !ok {
 		return "", false, nil
+	}
+	// string(rune(c)) of a byte
+	if tv, ok := fc.p.TypesInfo.Types[call.Fun]; ok && tv.IsType() && len(call.Args) == 1 {
+		if b, ok := tv.Type.Underlying().(*types.Basic); ok && b.Info()&types.IsString != 0 {
+			if in, ok := call.Args[0].(*ast.CallExpr); ok && len(in.Args) == 1 {
+				if itv, ok := fc.p.TypesInfo.Types[in.Fun]; ok && itv.IsType() {
+					if ib, ok := itv.Type.Underlying().(*types.Basic); ok && ib.Kind() == types.Int32 && unsignedBits(fc.p.TypesInfo.TypeOf(in.Args[0])) == 8 {
+						v, err := fc.expr(in.Args[0])
+						if err != nil {
+							return "", true, err
+						}
+						k11b2NeedLib(fc.m.module)
+						return "(Gzx.GoM.utf8Byte " + v + ")", true, nil
+					}
+				}
+			}
+		}
 	}
 	// conversions []byte(<string>)
 	if tv, ok := fc.p.TypesInfo.Types[call.Fun]; ok && tv.IsType() && len(call.Args) == 1 {
@@ -431,6 +544,24 @@ func (fc *fnCtx) k11b2Lexpr(ex ast.Expr) (string, bool, error) {
 		// []byte(x) of a slice / string value: the same list
 		s, err := fc.lexpr(call.Args[0])
 		return s, true, err
+	}
+	if id, ok := call.Fun.(*ast.Ident); ok && id.Name == "make" && len(call.Args) == 3 {
+		if _, isBuiltin := fc.p.TypesInfo.Uses[id].(*types.Builtin); !isBuiltin {
+			return "", false, nil
+		}
+		if lt, err := leanTypeM(fc.p.TypesInfo.TypeOf(call)); err != nil || lt != "List Int" {
+			return "", false, nil
+		}
+		n, err := fc.expr(call.Args[1])
+		if err != nil {
+			return "", true, err
+		}
+		c, err := fc.expr(call.Args[2])
+		if err != nil {
+			return "", true, err
+		}
+		k11b2NeedLib(fc.m.module)
+		return fc.bind(fmt.Sprintf("Gzx.GoM.mk3n %s %s", n, c)), true, nil
 	}
 	if id, ok := call.Fun.(*ast.Ident); ok && id.Name == "append" {
 		if _, isBuiltin := fc.p.TypesInfo.Uses[id].(*types.Builtin); !isBuiltin {
@@ -491,4 +622,144 @@ func (fc *fnCtx) k11b2Used(nodes []ast.Node, used map[string]bool) {
 			used[o] = true
 		}
 	}
+}
+
+// ---------- the mode loop as a view ----------
+
+func (fc *fnCtx) k11b2TypeExpr(t types.Type, pos token.Pos) ast.Expr {
+	id := &ast.Ident{Name: "k11b2_type", NamePos: pos}
+	fc.p.TypesInfo.Types[id] = types.TypeAndValue{Type: t}
+	return id
+}
+
+var k11b2Viewed = map[*ast.FuncDecl]bool{}
+
+// k11b2View: see the header
+func (fc *fnCtx) k11b2View(fd *ast.FuncDecl) {
+	if !strings.HasPrefix(curModule, "K02e") || fd.Recv != nil || fd.Name.Name != "DecodedBitStreamParser_decode" || fd.Body == nil || k11b2Viewed[fd] {
+		return
+	}
+	// 1. bits := common.NewBitSource(bytes)  ->  parameter
+	var bitsObj types.Object
+	var rest []ast.Stmt
+	for _, st := range fd.Body.List {
+		if as, ok := st.(*ast.AssignStmt); ok && as.Tok == token.DEFINE && len(as.Lhs) == 1 && len(as.Rhs) == 1 && bitsObj == nil {
+			if call, ok := as.Rhs[0].(*ast.CallExpr); ok {
+				if full, ok := fc.k11b2PkgCall(call); ok && strings.HasSuffix(full, "/common.NewBitSource") {
+					if id, ok := as.Lhs[0].(*ast.Ident); ok {
+						bitsObj = fc.p.TypesInfo.Defs[id]
+						continue
+					}
+				}
+			}
+		}
+		rest = append(rest, st)
+	}
+	if bitsObj == nil {
+		return
+	}
+	// 2. the last statement: return common.NewDecoderResultWithSymbologyModifier(bytes, string(result), byteSegments, "", symbologyModifier), nil
+	last, ok := rest[len(rest)-1].(*ast.ReturnStmt)
+	if !ok || len(last.Results) != 2 {
+		return
+	}
+	call, ok := last.Results[0].(*ast.CallExpr)
+	if !ok || len(call.Args) != 5 {
+		return
+	}
+	conv, ok := call.Args[1].(*ast.CallExpr) // string(result)
+	if !ok || len(conv.Args) != 1 {
+		return
+	}
+	resultE, segsE, modE := conv.Args[0], call.Args[2], call.Args[4]
+	tRes, tSegs, tMod := fc.p.TypesInfo.TypeOf(resultE), fc.p.TypesInfo.TypeOf(segsE), fc.p.TypesInfo.TypeOf(modE)
+	if tRes == nil || tSegs == nil || tMod == nil {
+		return
+	}
+	k11b2Viewed[fd] = true
+	fd.Body.List = rest
+	pid := &ast.Ident{Name: bitsObj.Name(), NamePos: fd.Pos()}
+	fc.p.TypesInfo.Defs[pid] = bitsObj
+	fd.Type.Params.List = append([]*ast.Field{{Names: []*ast.Ident{pid}, Type: fc.k11b2TypeExpr(bitsObj.Type(), fd.Pos())}}, fd.Type.Params.List...)
+	errT := fc.p.TypesInfo.TypeOf(fd.Type.Results.List[len(fd.Type.Results.List)-1].Type)
+	fd.Type.Results.List = []*ast.Field{
+		{Type: fc.k11b2TypeExpr(tRes, fd.Pos())}, {Type: fc.k11b2TypeExpr(tSegs, fd.Pos())}, {Type: fc.k11b2TypeExpr(tMod, fd.Pos())},
+		{Type: fc.k11b2TypeExpr(errT, fd.Pos())},
+	}
+	mkNil := func(t types.Type, pos token.Pos) ast.Expr {
+		id := &ast.Ident{Name: "nil", NamePos: pos}
+		fc.p.TypesInfo.Types[id] = types.TypeAndValue{Type: t}
+		fc.p.TypesInfo.Uses[id] = types.Universe.Lookup("nil")
+		return id
+	}
+	mkZero := func(pos token.Pos) ast.Expr {
+		lit := &ast.BasicLit{Kind: token.INT, Value: "0", ValuePos: pos}
+		fc.p.TypesInfo.Types[lit] = types.TypeAndValue{Type: tMod, Value: constant.MakeInt64(0)}
+		return lit
+	}
+	ast.Inspect(fd.Body, func(n ast.Node) bool {
+		switch x := n.(type) {
+		case *ast.FuncLit:
+			return false
+		case *ast.ReturnStmt:
+			if len(x.Results) != 2 {
+				return true
+			}
+			if x == last {
+				x.Results = []ast.Expr{resultE, segsE, modE, x.Results[1]}
+			} else {
+				x.Results = []ast.Expr{mkNil(tRes, x.Pos()), mkNil(tSegs, x.Pos()), mkZero(x.Pos()), x.Results[1]}
+			}
+		}
+		return true
+	})
+}
+
+// k11b2Return: `nil` for a result that is a list of byte lists
+func (fc *fnCtx) k11b2Return(ri int, r ast.Expr) ([]string, bool, error) {
+	if !k11b2On() || fc.m == nil {
+		return nil, false, nil
+	}
+	if id, ok := r.(*ast.Ident); ok && id.Name == "nil" {
+		if lt, err := leanTypeM(fc.p.TypesInfo.TypeOf(r)); err == nil && lt == "List (List Int)" {
+			return []string{"[]"}, true, nil
+		}
+	}
+	return nil, false, nil
+}
+
+// k11b2Mexpr: expression forms
+func (fc *fnCtx) k11b2Mexpr(ex ast.Expr) (string, bool, error) {
+	if !k11b2On() || fc.m == nil {
+		return "", false, nil
+	}
+	if call, ok := ex.(*ast.CallExpr); ok {
+		// len(xs) of a list of byte lists
+		if id, ok := call.Fun.(*ast.Ident); ok && id.Name == "len" && len(call.Args) == 1 {
+			if a, ok := call.Args[0].(*ast.Ident); ok {
+				if _, seen := fc.locals[a.Name]; seen && fc.m.ltype[a.Name] == "List (List Int)" {
+					return "(Int.ofNat (List.length " + fc.name(a.Name) + "))", true, nil
+				}
+			}
+		}
+		if sel, ok := call.Fun.(*ast.SelectorExpr); ok && sel.Sel.Name == "contains" && len(call.Args) == 1 {
+			if id, ok := sel.X.(*ast.Ident); ok && k11b2IsIntSet(fc.p.TypesInfo.TypeOf(id)) {
+				s, err := fc.lexpr(id)
+				if err != nil {
+					return "", true, err
+				}
+				n0 := len(fc.m.pre)
+				v, err := fc.expr(call.Args[0])
+				if err != nil {
+					return "", true, err
+				}
+				if len(fc.m.pre) != n0 {
+					return "", true, fmt.Errorf("checked operation in the argument of contains")
+				}
+				k11b2NeedLib(fc.m.module)
+				return "(Gzx.GoM.setContains " + s + " " + v + ")", true, nil
+			}
+		}
+	}
+	return "", false, nil
 }
